@@ -851,5 +851,185 @@ theorem pBackend_print (b : G.Backend) (h : backendOk b = true) (rest : List K) 
   simp [body, Parse.expectClose]
 
 
+/-! modules -/
+
+def pModItem (tr : Bool) : ModItem → List K
+  | .use p => Print.pUse p
+  | .xtype n a => Print.pXType tr (n, a)
+  | .xval x => Print.pXVal tr x
+  | .defn i => Print.pItemDef tr i
+  | .impl i => Print.pImpl tr i
+  | .backend b => Print.pBackend b
+
+def modItemOk : ModItem → Bool
+  | .use p => pathOk p
+  | .xtype n a => xtypeOk (n, a)
+  | .xval x => xvalOk x
+  | .defn i => itemOk i
+  | .impl i => implOk i
+  | .backend b => backendOk b
+
+/-- the items of a module in printing order -/
+def itemsOf (m : G.Module) : List ModItem :=
+  m.uses.map .use ++ m.xtypes.map (fun x => .xtype x.1 x.2) ++ m.xvals.map .xval ++
+    m.defs.map .defn ++ m.impls.map .impl ++ m.backends.map .backend
+
+theorem printK_eq (tr : Bool) (m : G.Module) :
+    Print.printK tr m = Print.pAttrs true tr m.attrs ++ (itemsOf m).flatMap (pModItem tr) := by
+  simp [Print.printK, itemsOf, List.flatMap_append, List.flatMap_map, pModItem, List.append_assoc]
+
+theorem length_pModItem (tr : Bool) (it : ModItem) : 1 ≤ (pModItem tr it).length := by
+  cases it with
+  | use p => simp [pModItem, Print.pUse]
+  | xtype n a => simp [pModItem, Print.pXType]
+  | xval x => simp [pModItem, Print.pXVal]; omega
+  | defn i =>
+    obtain ⟨v, n, inner⟩ := i
+    cases inner <;> simp [pModItem, Print.pItemDef, Print.pGroup] <;> omega
+  | impl i => simp [pModItem, Print.pImpl, Print.pGroup]; omega
+  | backend b => simp [pModItem, Print.pBackend]
+
+theorem pItem_print (tr : Bool) (it : ModItem) (h : modItemOk it = true) (rest : List K) (f : Nat)
+    (hf : (pModItem tr it).length < f) (u : Option Nat) :
+    Parse.pItem f (pModItem tr it ++ rest) u = .ok (it, rest, u) := by
+  cases it with
+  | use p => exact pUse_print p h rest f hf u
+  | xtype n a => exact pXType_print tr (n, a) h rest f hf u
+  | xval x => exact pXVal_print tr x h rest f hf u
+  | defn i => exact pItemDef_print tr i h rest f hf u
+  | impl i => exact pImpl_print tr i h rest f hf u
+  | backend b =>
+    exact pBackend_print b h rest f (by simp [pModItem, Print.pBackend] at hf; omega) u
+
+theorem pItems_print (tr : Bool) (its : List ModItem) (h : its.all modItemOk = true) (fuel : Nat)
+    (hfuel : (its.flatMap (pModItem tr)).length < fuel) (f : Nat) (hf : its.length < f)
+    (u : Option Nat) :
+    Parse.pItems fuel f (its.flatMap (pModItem tr)) u = .ok (its, [], u) := by
+  induction its generalizing f with
+  | nil =>
+    obtain ⟨f, rfl⟩ : ∃ g, f = g + 1 := ⟨f - 1, by omega⟩
+    simp [Parse.pItems]
+  | cons it its ih =>
+    obtain ⟨f, rfl⟩ : ∃ g, f = g + 1 := ⟨f - 1, by omega⟩
+    simp only [List.all_cons, Bool.and_eq_true] at h
+    simp only [List.flatMap_cons, List.length_append] at hfuel
+    have h4 := length_pModItem tr it
+    have hne : (pModItem tr it ++ its.flatMap (pModItem tr)).isEmpty = false := by
+      cases hh : pModItem tr it with
+      | nil => rw [hh] at h4; simp at h4
+      | cons _ _ => rfl
+    have := pItem_print tr it h.1 (its.flatMap (pModItem tr)) fuel (by omega) u
+    simp only [List.flatMap_cons, Parse.pItems, hne, Bool.false_eq_true, if_false, this,
+      ih h.2 (by omega) f (by simp at hf; omega)]
+
+theorem fm_some {α β : Type} (sel : β → Option α) (c : α → β) (l : List α)
+    (h : ∀ x, sel (c x) = some x) : l.filterMap (sel ∘ c) = l := by
+  induction l with
+  | nil => rfl
+  | cons x xs ih => simp [h, ih]
+
+theorem fm_none {α β γ : Type} (sel : β → Option γ) (c : α → β) (l : List α)
+    (h : ∀ x, sel (c x) = none) : l.filterMap (sel ∘ c) = [] := by
+  induction l with
+  | nil => rfl
+  | cons x xs ih => simp [h, ih]
+
+theorem assemble_itemsOf (m : G.Module) : Parse.assemble m.attrs (itemsOf m) = m := by
+  obtain ⟨uses, xtypes, xvals, defs, impls, backends, attrs⟩ := m
+  simp only [Parse.assemble, itemsOf, List.filterMap_append, List.filterMap_map]
+  congr 1
+  · rw [fm_some Parse.selUse ModItem.use uses (fun _ => rfl),
+      fm_none Parse.selUse (fun x : String × List G.Attr => ModItem.xtype x.fst x.snd) xtypes (fun _ => rfl),
+      fm_none Parse.selUse ModItem.xval xvals (fun _ => rfl),
+      fm_none Parse.selUse ModItem.defn defs (fun _ => rfl),
+      fm_none Parse.selUse ModItem.impl impls (fun _ => rfl),
+      fm_none Parse.selUse ModItem.backend backends (fun _ => rfl)]
+    simp
+  · rw [fm_none Parse.selXType ModItem.use uses (fun _ => rfl),
+      fm_some Parse.selXType (fun x : String × List G.Attr => ModItem.xtype x.fst x.snd) xtypes (fun _ => rfl),
+      fm_none Parse.selXType ModItem.xval xvals (fun _ => rfl),
+      fm_none Parse.selXType ModItem.defn defs (fun _ => rfl),
+      fm_none Parse.selXType ModItem.impl impls (fun _ => rfl),
+      fm_none Parse.selXType ModItem.backend backends (fun _ => rfl)]
+    simp
+  · rw [fm_none Parse.selXVal ModItem.use uses (fun _ => rfl),
+      fm_none Parse.selXVal (fun x : String × List G.Attr => ModItem.xtype x.fst x.snd) xtypes (fun _ => rfl),
+      fm_some Parse.selXVal ModItem.xval xvals (fun _ => rfl),
+      fm_none Parse.selXVal ModItem.defn defs (fun _ => rfl),
+      fm_none Parse.selXVal ModItem.impl impls (fun _ => rfl),
+      fm_none Parse.selXVal ModItem.backend backends (fun _ => rfl)]
+    simp
+  · rw [fm_none Parse.selDef ModItem.use uses (fun _ => rfl),
+      fm_none Parse.selDef (fun x : String × List G.Attr => ModItem.xtype x.fst x.snd) xtypes (fun _ => rfl),
+      fm_none Parse.selDef ModItem.xval xvals (fun _ => rfl),
+      fm_some Parse.selDef ModItem.defn defs (fun _ => rfl),
+      fm_none Parse.selDef ModItem.impl impls (fun _ => rfl),
+      fm_none Parse.selDef ModItem.backend backends (fun _ => rfl)]
+    simp
+  · rw [fm_none Parse.selImpl ModItem.use uses (fun _ => rfl),
+      fm_none Parse.selImpl (fun x : String × List G.Attr => ModItem.xtype x.fst x.snd) xtypes (fun _ => rfl),
+      fm_none Parse.selImpl ModItem.xval xvals (fun _ => rfl),
+      fm_none Parse.selImpl ModItem.defn defs (fun _ => rfl),
+      fm_some Parse.selImpl ModItem.impl impls (fun _ => rfl),
+      fm_none Parse.selImpl ModItem.backend backends (fun _ => rfl)]
+    simp
+  · rw [fm_none Parse.selBackend ModItem.use uses (fun _ => rfl),
+      fm_none Parse.selBackend (fun x : String × List G.Attr => ModItem.xtype x.fst x.snd) xtypes (fun _ => rfl),
+      fm_none Parse.selBackend ModItem.xval xvals (fun _ => rfl),
+      fm_none Parse.selBackend ModItem.defn defs (fun _ => rfl),
+      fm_none Parse.selBackend ModItem.impl impls (fun _ => rfl),
+      fm_some Parse.selBackend ModItem.backend backends (fun _ => rfl)]
+    simp
+
+theorem wf_items {m : G.Module} (h : wfB m = true) : (itemsOf m).all modItemOk = true := by
+  simp only [wfB, Bool.and_eq_true, List.all_eq_true] at h
+  obtain ⟨⟨⟨⟨⟨⟨_, h1⟩, h2⟩, h3⟩, h4⟩, h5⟩, h6⟩ := h
+  simp only [itemsOf, List.all_append, List.all_map, Bool.and_eq_true, List.all_eq_true,
+    Function.comp_apply, modItemOk]
+  exact ⟨⟨⟨⟨⟨h1, fun x hx => h2 x hx⟩, h3⟩, h4⟩, h5⟩, h6⟩
+
+theorem stopAttrs_items (tr : Bool) (its : List ModItem) :
+    StopAttrs true (its.flatMap (pModItem tr)) := by
+  cases its with
+  | nil => simp [StopAttrs]
+  | cons it its =>
+    cases it with
+    | use p => simp [pModItem, Print.pUse, StopAttrs]
+    | backend b => simp [pModItem, Print.pBackend, StopAttrs]
+    | xtype n a => cases a <;> simp [pModItem, Print.pXType, Print.pAttrs, Print.pAttr, Print.pGroup, StopAttrs]
+    | xval x =>
+      obtain ⟨v, n, t, a⟩ := x
+      cases a <;> cases v <;> simp [pModItem, Print.pXVal, Print.pVis, Print.pAttrs, Print.pAttr, Print.pGroup, StopAttrs]
+    | impl i =>
+      obtain ⟨n, fns, a⟩ := i
+      cases a <;> simp [pModItem, Print.pImpl, Print.pAttrs, Print.pAttr, Print.pGroup, StopAttrs]
+    | defn i =>
+      obtain ⟨v, n, inner⟩ := i
+      cases inner with
+      | type d =>
+        obtain ⟨ss, a⟩ := d
+        cases a <;> cases v <;> simp [pModItem, Print.pItemDef, Print.pVis, Print.pAttrs, Print.pAttr, Print.pGroup, StopAttrs]
+      | enum d =>
+        obtain ⟨ty, ss, a⟩ := d
+        cases a <;> cases v <;> simp [pModItem, Print.pItemDef, Print.pVis, Print.pAttrs, Print.pAttr, Print.pGroup, StopAttrs]
+
+/-- token-level round trip on token kinds -/
+theorem parseK_printK (tr : Bool) (m : G.Module) (h : wfB m = true) :
+    Parse.parseK (Print.printK tr m) = .ok m := by
+  have hi := wf_items h
+  have ha : m.attrs.all attrOk = true := by
+    simp only [wfB, Bool.and_eq_true] at h; exact h.1.1.1.1.1.1
+  have hlen := length_flatMap_ge (pModItem tr) (itemsOf m)
+    (fun x _ => by have := length_pModItem tr x; omega)
+  rw [printK_eq]
+  simp only [Parse.parseK]
+  rw [pAttrs_print true tr m.attrs ha _ (stopAttrs_items tr _) _
+    (by simp only [List.length_append]; omega)]
+  simp only []
+  rw [pItems_print tr (itemsOf m) hi _ (by simp only [List.length_append]; omega) _
+    (by simp only [List.length_append]; omega)]
+  simp [assemble_itemsOf]
+
+
 end C18
 end PyxisVerif
